@@ -278,11 +278,11 @@ def remapLine (pr : Prog) (reraise tree : Bool) (h : Heap) (root : Obj) : String
         ((match remapIter c v with | some r => showV r | none => "!TypeError"), showV (remapRec c v))
       | none => ("!unfold", "!unfold")
     else ("-", "-")
-  let mpart := match recRoot ⟨hprogVisit pr, reraise⟩ h root (hbound h) with
-    | some (st, v) => showH st.out v
+  let mpart := match recRootE ⟨hprogVisit pr, reraise⟩ h root (hbound h) with
+    | some (.ok st v) => showH st.out v
+    | some (.raised _) => errS .visitError
     | none =>
-      -- the recursion is specified for container roots; it returns nothing when a visit raises
-      if hpart.startsWith "!" then hpart else
+      -- the recursion is specified for container roots
       match root with
       | .atom _ => hpart
       | .ref _ => "!no-result"
